@@ -37,6 +37,7 @@ func init() {
 		c05MountPath(c)
 		c05UpgradeRejection(c)
 		c05QueryAccessors(c)
+		c05OriginPredicate(c)
 	})
 }
 
@@ -1082,4 +1083,112 @@ func c05QueryAccessors(c *core.Ctx) {
 		}
 	}
 	c.Need(R, "reads of admission-relevant query keys", n, 10)
+}
+
+// c05OriginPredicate — C05.10: the body of the 'Origin header well-formed' test.
+func c05OriginPredicate(c *core.Ctx) {
+	const R = "C05.10"
+	c.Rule(R, "Origin predicate (utils.CheckInvalidHeaderChar): the value is scanned as received — the parameter is never re-assigned (no trimming or normalising before the scan), one loop visits every index 0..len(val)-1, `return true` is reached exactly on isCTL(b) ∧ ¬isLWS(b) of b = val[i], the fall-through returns false; isCTL(b) = b < 0x20 ∨ b == 0x7f and isLWS(b) = b == ' ' ∨ b == '\\t'; Verify feeds it Headers().Peek(\"Origin\")")
+	u := c.Fn(R, "utils.CheckInvalidHeaderChar")
+	if u != nil {
+		info := u.Info()
+		g := u.Graph()
+		pn := paramName(u, 0)
+		writes := len(assignsIn(u, func(l ast.Expr) bool { return isLocal(info, l, pn) }))
+		c.Check(R, "utils.CheckInvalidHeaderChar/scans-the-raw-value", u.Pos(), writes == 0, keyf("%d assignment(s) to the parameter before/while scanning", writes))
+		// the loop
+		var loop *ast.ForStmt
+		nLoops := 0
+		ast.Inspect(u.Body, func(n ast.Node) bool {
+			switch x := n.(type) {
+			case *ast.ForStmt:
+				nLoops++
+				loop = x
+			case *ast.RangeStmt:
+				nLoops++
+			}
+			return true
+		})
+		full := false
+		if loop != nil && nLoops == 1 {
+			// i starts at 0, bound is len(val) (directly or through a local), step i++
+			start0, bound, step := false, false, false
+			if as, ok := loop.Init.(*ast.AssignStmt); ok {
+				for i, r := range as.Rhs {
+					if v, isC := core.ConstInt(info, r); isC && v == 0 && i == 0 {
+						start0 = true
+					}
+				}
+			}
+			if be, ok := loop.Cond.(*ast.BinaryExpr); ok && be.Op == token.LSS {
+				d := u.Resolve(be.Y)
+				if ce, ok := ast.Unparen(d).(*ast.CallExpr); ok && len(ce.Args) == 1 && calleeNameOf(ce) == "len" && isLocal(info, ce.Args[0], pn) {
+					bound = true
+				}
+			}
+			if inc, ok := loop.Post.(*ast.IncDecStmt); ok && inc.Tok == token.INC {
+				step = true
+			}
+			full = start0 && bound && step
+		}
+		c.Check(R, "utils.CheckInvalidHeaderChar/visits-every-byte", u.Pos(), full, "for i := 0; i < len(val); i++")
+		// return true exactly on isCTL ∧ ¬isLWS
+		okTrue, okFalse := false, false
+		for _, r := range returnsIn(u) {
+			if len(r.Stmt.Results) != 1 {
+				continue
+			}
+			v, isC := core.ConstBool(info, r.Stmt.Results[0])
+			if !isC {
+				continue
+			}
+			if v {
+				okTrue = g.GuardedBy(r.Loc, boolCallGuard(true, "utils.isCTL")) && g.GuardedBy(r.Loc, boolCallGuard(false, "utils.isLWS"))
+			} else {
+				okFalse = !g.GuardedBy(r.Loc, boolCallGuard(true, "utils.isCTL"))
+			}
+		}
+		c.Check(R, "utils.CheckInvalidHeaderChar/invalid-iff-CTL-and-not-LWS", u.Pos(), okTrue && okFalse, keyf("return true on isCTL ∧ ¬isLWS: %v; return false otherwise: %v", okTrue, okFalse))
+	}
+	// the two byte classes
+	classes := []struct {
+		key  string
+		want map[string]int64 // op → constant
+	}{
+		{"utils.isCTL", map[string]int64{"<": 0x20, "==": 0x7f}},
+		{"utils.isLWS", map[string]int64{"==a": ' ', "==b": '\t'}},
+	}
+	for _, cls := range classes {
+		f := c.Fn(R, cls.key)
+		if f == nil {
+			continue
+		}
+		info := f.Info()
+		ok := false
+		for _, r := range returnsIn(f) {
+			if len(r.Stmt.Results) != 1 {
+				continue
+			}
+			be, isB := ast.Unparen(r.Stmt.Results[0]).(*ast.BinaryExpr)
+			if !isB || be.Op != token.LOR {
+				continue
+			}
+			got := map[string]bool{}
+			for _, side := range []ast.Expr{be.X, be.Y} {
+				cmp, isC := ast.Unparen(side).(*ast.BinaryExpr)
+				if !isC {
+					continue
+				}
+				if v, isK := core.ConstInt(info, cmp.Y); isK && isLocal(info, cmp.X, paramName(f, 0)) {
+					got[keyf("%s%d", cmp.Op.String(), v)] = true
+				}
+			}
+			if cls.key == "utils.isCTL" {
+				ok = got["<32"] && got["==127"] && len(got) == 2
+			} else {
+				ok = got["==32"] && got["==9"] && len(got) == 2
+			}
+		}
+		c.Check(R, cls.key+"/byte-class", f.Pos(), ok, "the byte class is exactly the RFC 2616 definition")
+	}
 }
